@@ -42,6 +42,10 @@ func vfStopScenarios() []vfScenario {
 	add("up-archive", vfCfg{Dir: "up", Directory: true, Direct: true}, []string{"d"}, dir)
 	add("down-p3-y", vfCfg{Dir: "down", Protocol: 3, Overwrite: true, Direct: true}, []string{"first.bin", "second.bin"}, big[:2])
 	add("up-p2", vfCfg{Dir: "up", Protocol: 2, Direct: true}, []string{"first.bin", "second.bin"}, big[:2])
+	// a directory followed by siblings whose names begin with the directory's name
+	pre := []vfFileSpec{{Rel: "proj", Dir: true}, {Rel: "proj/a.bin", Size: 50000, Content: "rand"}, {Rel: "proj.md", Size: 90000, Content: "text"}, {Rel: "proj-notes.bin", Size: 60000, Content: "rand"}}
+	add("up-prefix-y", vfCfg{Dir: "up", Directory: true, Overwrite: true, Direct: true}, []string{"proj", "proj.md", "proj-notes.bin"}, pre)
+	add("down-prefix-archive", vfCfg{Dir: "down", Directory: true, Direct: true}, []string{"proj", "proj.md", "proj-notes.bin"}, pre)
 	add("down-filter", vfCfg{Dir: "down"}, []string{"first.bin", "second.bin", "third.txt"}, big)
 	add("up-filter", vfCfg{Dir: "up", Directory: true, Overwrite: true}, []string{"d"}, dir)
 	return sc
